@@ -119,7 +119,7 @@ func runC16(c c16Case, faults []world.Fault, failMod string, failAt uint64) (run
 		prog.Beh = nb
 	}
 	remote := &world.Remote{Faults: faults}
-	cfg := world.Config{Dir: dir, Seg: c.Seg, Workers: c.Run.Workers, Final: c.Run.Final, Steps: world.LinearChain(c.Head), Remote: remote, Timeout: 60 * time.Second}
+	cfg := world.Config{Dir: dir, Seg: c.Seg, Workers: c.Run.Workers, Final: c.Run.Final, Steps: chainFor(c.Run, c.Head), Remote: remote, Timeout: 60 * time.Second}
 	var out runOut
 	out.res = world.Run(prog.Modules(), world.Request{Prod: c.Run.Prod, Start: int64(c.Run.Start), Stop: c.Run.Stop, Output: c.Run.Output}, cfg)
 	return out, remote
@@ -219,6 +219,7 @@ func TestC16(t *testing.T) {
 		for i := 0; i < n; i++ {
 			batch.Cases = append(batch.Cases, genC16One(rt))
 		}
+		ev.Get("C16", "FaultsBatch").Begin(batch) // replayed by TestC16BatchReplay
 		fails := make([]*ev.Failure, n)
 		stats := make([]c16Stats, n)
 		var wg sync.WaitGroup
@@ -253,6 +254,28 @@ func TestC16(t *testing.T) {
 				r.Report(rt, batch.Cases[i], f) // the replay file holds the failing case alone
 			}
 		}
+	})
+}
+
+// TestC16BatchReplay re-runs a whole batch concurrently (the replay written when the process died during a batch).
+func TestC16BatchReplay(t *testing.T) {
+	ev.Replay(t, "C16", "FaultsBatch", func(b c16Batch) *ev.Failure {
+		fails := make([]*ev.Failure, len(b.Cases))
+		var wg sync.WaitGroup
+		for i := range b.Cases {
+			wg.Add(1)
+			go func(i int) {
+				defer wg.Done()
+				fails[i] = ev.Guard(func() *ev.Failure { f, _ := checkC16One(b.Cases[i]); return f })
+			}(i)
+		}
+		wg.Wait()
+		for _, f := range fails {
+			if f != nil {
+				return f
+			}
+		}
+		return nil
 	})
 }
 
